@@ -31,6 +31,8 @@ func main() {
 	refs := flag.String("refs", "", "debug: list references to rel/pkg:Func (with dispatch family)")
 	writes := flag.String("writes", "", "debug: list writes of rel/pkg:Type:field")
 	dump := flag.String("dump", "", "debug: dump SSA of rel/pkg:Func")
+	overlay := flag.String("overlay", "", "file=replacement: analyse with the file's content replaced (mutation self-test)")
+	mutantRun := flag.Bool("mutantrun", false, "internal: evaluate one mutant and print a JSON summary")
 	warm := flag.Bool("warm", false, "load the repository once (builds export data into the go build cache) and exit")
 	flag.Parse()
 	if *warm {
@@ -57,6 +59,49 @@ func main() {
 	}
 	if *explain != "" {
 		os.Exit(doExplain(*repo, *explain))
+	}
+	if *overlay != "" {
+		parts := strings.SplitN(*overlay, "=", 2)
+		b, err := os.ReadFile(parts[1])
+		if err != nil {
+			fmt.Fprintln(os.Stderr, err)
+			os.Exit(2)
+		}
+		kit.Overlay = map[string][]byte{parts[0]: b}
+	}
+	if *mutantRun {
+		os.Exit(doMutantRun(*repo, *verif, *prop))
+	}
+	if *prop == "ALL" {
+		// dry run of every property on one load; writes no evidence (matrix tools)
+		w, err := kit.Load(*repo, *goos, *goarch, true)
+		if err != nil {
+			fmt.Fprintln(os.Stderr, "load failed:", err)
+			os.Exit(2)
+		}
+		var ids []string
+		for id := range rules.Registry {
+			ids = append(ids, id)
+		}
+		sort.Strings(ids)
+		rc := 0
+		for _, id := range ids {
+			pp := rules.Registry[id]
+			r := kit.NewReport(id, "quick")
+			r.NoWrite = true
+			func() {
+				defer func() {
+					if e := recover(); e != nil {
+						r.Undecided(id+".R0", "checker-panic", "", fmt.Sprintf("the analysis panicked: %v", e))
+					}
+				}()
+				pp.Run(&rules.Ctx{W: w, R: r, Tier: "quick"})
+			}()
+			if r.Finish(*verif, w, pp.Explanation, pp.NotDecided, pp.Assumptions, 0) != 0 {
+				rc = 1
+			}
+		}
+		os.Exit(rc)
 	}
 	p := rules.Registry[*prop]
 	if p == nil {
@@ -123,6 +168,11 @@ func run(p *rules.Property, repo, verif, tier, goos, goarch string, seed int) (c
 		}
 	}
 	r.Extra["build_variants"] = variants
+	if tier == "thorough" && os.Getenv("CONDUITLINT_MUTATE") != "0" {
+		if self, err := os.Executable(); err == nil {
+			r.Extra["mutation_self_test"] = mutationSelfTest(self, repo, verif, p.ID, r.Obs, seed)
+		}
+	}
 	return r.Finish(verif, w, p.Explanation, p.NotDecided, p.Assumptions, seed)
 }
 
@@ -210,5 +260,48 @@ func debugCmd(repo, refs, writes, dump string) int {
 			fn.WriteTo(os.Stdout)
 		}
 	}
+	return 0
+}
+
+func doMutantRun(repo, verif, prop string) int {
+	out := map[string]any{}
+	defer func() {
+		b, _ := json.Marshal(out)
+		fmt.Println(string(b))
+	}()
+	p := rules.Registry[prop]
+	if p == nil {
+		out["load_error"] = "unknown property"
+		return 2
+	}
+	w, err := kit.Load(repo, "", "", true)
+	if err != nil {
+		out["load_error"] = err.Error()
+		return 0
+	}
+	r := kit.NewReport(prop, "thorough")
+	r.NoWrite = true
+	func() {
+		defer func() {
+			if e := recover(); e != nil {
+				r.Undecided(prop+".R0", "checker-panic", "", fmt.Sprint(e))
+			}
+		}()
+		p.Run(&rules.Ctx{W: w, R: r, Tier: "thorough"})
+	}()
+	// include instance-count failures
+	devnull, _ := os.Open(os.DevNull)
+	_ = devnull
+	old := os.Stdout
+	os.Stdout, _ = os.OpenFile(os.DevNull, os.O_WRONLY, 0)
+	r.Finish(verif, w, "", nil, nil, 0)
+	os.Stdout = old
+	var bad []string
+	for _, o := range r.Obs {
+		if o.Status != kit.OK {
+			bad = append(bad, o.Rule+"|"+o.Key)
+		}
+	}
+	out["bad"] = bad
 	return 0
 }
